@@ -185,14 +185,15 @@ PROPS["C07"] = {
             "everything the peer controls; one case in six uses small body limits, both limit actions and rules that move the limits / "
             "switch body access or the body processor in any phase; one case in six has SecIgnoreRuleCompilationErrors On with 1-3 rules the "
             "compiler refuses (disruptive chain member, unknown operator / transformation / action, bad pattern, chain left open), each "
-            "followed by a directive naming the refused id again; bodies arrive in pieces through the slice and the reader entry "
+            "followed by a directive naming the refused id again; one case in four also serves the request through the library's net/http "
+            "middleware (twice), half of them with an always-matching rule carrying every disruptive action and usable / unusable status; bodies arrive in pieces through the slice and the reader entry "
             "points; anomalous scripts duplicate, drop, swap and move calls, add extra body writes and phase calls anywhere and keep using "
             "the handle after Close; oracle = recover() around NewWAF and every call, NewWAF "
             "returns exactly one of (waf, error), watchdog for hangs; non-trivial = the configuration was accepted and traffic was driven "
             "through it; distinct = distinct case encodings",
     "essential": {"all": ["accepted", "rejected-with-error", "rules-fired", "parse-request-reader", "act:setvar", "act:ctl", "op:rx", "op:pm",
                           "op:validateNid", "op:restpath", "dir:secruleremovebymsg", "dir:secruleupdatetargetbyid", "dir:secauditlogformat",
-                          "hostile-values-through-transformation-chains", "body-limit-dynamics", "refused-rules-then-references-to-their-ids"]},
+                          "hostile-values-through-transformation-chains", "body-limit-dynamics", "refused-rules-then-references-to-their-ids", "through-the-http-middleware"]},
     "vocab_complete": True,
     "assumptions": COMMON_ASSUME + [
         "@rbl, @geoLookup and SecRemoteRules (network I/O by design) are compiled but not driven with traffic; @inspectFile / exec name a non-existent program",
